@@ -208,6 +208,52 @@ def leafState : LeafKind → String
 | .timer _ fin => s!"t{fin}"
 | _ => ""
 
+def opStr : CmpOp → String
+| .eq => "eq" | .ne => "ne" | .lt => "lt" | .le => "le" | .gt => "gt" | .ge => "ge"
+def logicStr : LogicOp → String
+| .and => "and" | .or => "or" | .xor => "xor"
+def boolStr (b : Bool) : String := if b then "1" else "0"
+def checkStr (c : Check) : String := s!"{c.key} {pathStr c.path} {opStr c.op} {valStr c.value}"
+
+def leafKindStr : LeafKind → String
+| .probe => "probe"
+| .const s => "const " ++ stStr s
+| .tickCounter d c _ => s!"tc {d} {stStr c}"
+| .statusQueue q ev _ => s!"sq {stListStr q} " ++ (match ev with | some s => stStr s | none => "-")
+| .successEveryN n _ => s!"sen {n}"
+| .timer d _ => s!"timer {d}"
+| .checkExists k p => s!"cex {k} {pathStr p}"
+| .waitFor k p => s!"wf {k} {pathStr p}"
+| .checkValue c => "cv " ++ checkStr c
+| .waitValue c => "wv " ++ checkStr c
+| .checkValues cs op res =>
+    s!"cvs {cs.length} " ++ String.intercalate " " (cs.map checkStr) ++ " " ++ logicStr op ++
+      (match res with | some ks => " " ++ String.intercalate " " ks | none => "")
+| .setVar k p v ow => s!"set {k} {pathStr p} {valStr v} {boolStr ow}"
+| .unsetVar k => s!"unset {k}"
+| .bbToStatus k p => s!"b2s {k} {pathStr p}"
+
+def decKindStr : DecKind → String
+| .inverter => "inv" | .runningIsFailure => "rif" | .runningIsSuccess => "ris" | .failureIsSuccess => "fis"
+| .failureIsRunning => "fir" | .successIsFailure => "sif" | .successIsRunning => "sir" | .passThrough => "pass"
+| .condition s => "cond:" ++ stStr s
+| .retry n _ => s!"retry:{n}" | .repeat_ n _ => s!"repeat:{n}" | .timeout d _ => s!"timeout:{d}"
+| .guard g => s!"guard:{g}" | .oneShot b _ => "oneshot:" ++ boolStr b | .count _ _ _ _ _ => "count"
+| .statusToBB k p => s!"s2b:{k}:{pathStr p}"
+
+def policyStr : Policy → String
+| .onAll s => "all:" ++ boolStr s
+| .onOne => "one"
+| .onSelected ids s => "sel:" ++ boolStr s ++ ":" ++ String.intercalate "," (ids.map toString)
+
+/-- a tree in the spec syntax of the protocol -/
+partial def treeStr : Node → String
+| .leaf i _ k _ => s!"( L {i} {leafKindStr k} )"
+| .seq i m _ _ cs => s!"( Q {i} {boolStr m} " ++ String.intercalate " " (cs.map treeStr) ++ (if cs.isEmpty then ")" else " )")
+| .sel i m _ _ cs => s!"( S {i} {boolStr m} " ++ String.intercalate " " (cs.map treeStr) ++ (if cs.isEmpty then ")" else " )")
+| .par i p _ _ cs => s!"( P {i} {policyStr p} " ++ String.intercalate " " (cs.map treeStr) ++ (if cs.isEmpty then ")" else " )")
+| .dec i k _ c => s!"( D {i} {decKindStr k} {treeStr c} )"
+
 /-- state dump in pre-order: `id:status:current_child:own-state` -/
 partial def dump : Node → List String
 | .leaf i s k _ => [s!"{i}:{stStr s}:-:{leafState k}"]
